@@ -33,13 +33,13 @@ theorem ewise_mutate_never (c : Cache) (i : NodeId) (ch : Ast) (names : List Str
   simp [Ast.isVerbKind]
 
 /-- `arrange` and `group_by` are accepted as long as no `slice_head` came before -/
-theorem arrange_groupby_ok (c : Cache) (i : NodeId) (ch : Ast) (hl : c.limit = 0) :
+theorem arrange_groupby_ok (c : Cache) (i : NodeId) (ch : Ast) (hl : c.limit = none) :
     (∀ ords, c.requiresSubquery (.arrange i ch ords) = none) ∧ (∀ cols add, c.requiresSubquery (.groupBy i ch cols add) = none) := by
   refine ⟨?_, ?_⟩ <;> intros <;> simp [requiresSubquery, Ast.isVerbKind, hl] <;> decide
 
 /-- a `filter` is accepted when no `slice_head` came before and its predicates mention no window column
     (element-wise predicates over element-wise or aggregated columns: WHERE resp. HAVING) -/
-theorem filter_ok (c : Cache) (i : NodeId) (ch : Ast) (preds : List Expr) (hl : c.limit = 0)
+theorem filter_ok (c : Cache) (i : NodeId) (ch : Ast) (preds : List Expr) (hl : c.limit = none)
     (hw : ∀ p ∈ preds, ∀ ft ∈ colFtypes p, ft ≠ .window) :
     c.requiresSubquery (.filter i ch preds) = none := by
   have hno : ((Ast.colRoots (.filter i ch preds)).flatMap colFtypes).contains Ftype.window = false := by
@@ -56,7 +56,7 @@ theorem filter_ok (c : Cache) (i : NodeId) (ch : Ast) (preds : List Expr) (hl : 
 /-- the (first) `summarize` is accepted when no `slice_head` and no `summarize` came before and the
     aggregated expressions and the grouping columns are element-wise columns -/
 theorem summarize_ok (c : Cache) (i : NodeId) (ch : Ast) (names : List String) (vals : List Expr) (uuids : List Uid)
-    (metas : List (Dtype × Ftype)) (hl : c.limit = 0) (hg : c.groupBy = [])
+    (metas : List (Dtype × Ftype)) (hl : c.limit = none) (hg : c.groupBy = [])
     (hleaves : ∀ v ∈ vals, ∀ ft ∈ colFtypes v, ft = .elementWise)
     (hpart : ∀ u ∈ c.partitionBy, (c.col? u).map (·.ftype) ≠ some .window) :
     c.requiresSubquery (.summarize i ch names vals uuids metas) = none := by
@@ -78,8 +78,8 @@ theorem summarize_ok (c : Cache) (i : NodeId) (ch : Ast) (names : List String) (
 /-! ### chaining: what the accepted verbs do to the state the next decision reads -/
 
 /-- only `slice_head` sets a limit (the "final `slice_head`" of the grammar) -/
-theorem limit_stays_zero (c : Cache) (node : Ast) (hl : c.limit = 0) (hk : ∀ i ch n off, node ≠ .sliceHead i ch n off) :
-    (c.update node).limit = 0 := by
+theorem limit_stays_zero (c : Cache) (node : Ast) (hl : c.limit = none) (hk : ∀ i ch n off, node ≠ .sliceHead i ch n off) :
+    (c.update node).limit = none := by
   cases node with
   | sliceHead i ch n off => exact absurd rfl (hk i ch n off)
   | alias i ch m nm => cases m <;> simp [Cache.update, hl]
